@@ -282,3 +282,34 @@ CHECKS['C14']['jobs'].append(dict(name='deep', harness='c14_deep.cc', units=['ut
     quick=dict(defines=['VERIF_DEPTHS=8'], bounds='("d/" x M) for M in {0,1,127,128,254,255,256,257}, relative or absolute, followed by 1..3 components from {.., ., f, empty}'),
     thorough=dict(defines=['VERIF_DEPTHS=11'], bounds='the same with M up to 513', limits=dict(time=3000))))
 CHECKS['C14']['level_note'] += ' A second job covers paths of up to 513 components (concrete structure chosen from menus) against the same reference.'
+
+# ---- tiering: which jobs run in the quick tier (measured on 16 cores; the rest is thorough only) -------------------------------------------
+def _single_edit_variant(prop, job_name):
+    """for a heavy shape: the quick tier edits at most one source per round, the thorough tier any subset"""
+    for j in CHECKS[prop]['jobs']:
+        if j['name'] == job_name:
+            q = dict(j); q['name'] = job_name + '_single_edit'; q['defines'] = list(j['defines']) + ['SINGLE_EDIT']
+            q['quick'] = dict(j['quick'], bounds=j['quick']['bounds'].replace('any subset of sources edited', 'at most one source edited'))
+            q.pop('thorough_only', None); q['thorough'] = q['quick']
+            j['thorough_only'] = True
+            CHECKS[prop]['jobs'].append(q); return
+def _thorough_only(prop, names):
+    for j in CHECKS[prop]['jobs']:
+        if j['name'] in names: j['thorough_only'] = True
+_single_edit_variant('C01', 'dyndep'); _thorough_only('C01', ['pools'])
+_thorough_only('C02', ['diamond_order_only', 'dyndep', 'pools'])
+_thorough_only('C03', ['pools'])
+_single_edit_variant('C04', 'dyndep')
+_single_edit_variant('C11', 'dyndep'); _single_edit_variant('C11', 'dyndep_two_files')
+for _j in CHECKS['C13']['jobs']:
+    if _j['name'] == 'depfile': _j['quick'] = dict(defines=['VERIF_N=3'], bounds='every byte string of length 0..3')
+
+def _h3_variant(prop, job_name):
+    """a three-invocation history of a small shape already in the quick tier (at most one source edited per round)"""
+    for j in CHECKS[prop]['jobs']:
+        if j['name'] == job_name:
+            q = dict(j); q['name'] = job_name + '_h3'; q['defines'] = list(j['defines']) + ['SINGLE_EDIT']
+            q['quick'] = dict(defines=['HISTORY=3'], bounds=j['quick']['bounds'].replace('2 invocations', '3 invocations').replace('any subset of sources edited', 'at most one source edited'))
+            q['thorough'] = q['quick']; q.pop('thorough_only', None)
+            CHECKS[prop]['jobs'].append(q); return
+_h3_variant('C03', 'restat_with_deps'); _h3_variant('C10', 'restat_with_deps'); _h3_variant('C01', 'restat_then_deps')
